@@ -13,7 +13,7 @@ LEVEL = 'exploration'
 RULE = ("case = (sender kind: Src probe / Input / Counter / FuncBlock identity / Not; sequence of "
         "1..40 assigned values from a 14-value alphabet with equal-but-not-identical neighbours; "
         "fan-out 0..3 events for on_output and on_every_output given as None/single/list/tuple; "
-        "per-event filter chain from {pass, reject, new-dict edit, in-place edit} + a final "
+        "per-event filter chain from {pass, reject, new-dict edit, in-place edit, empty mapping (new and in-place), strip to 'value'} + a final "
         "recording filter); the oracle replays the assignments through a 30-line reference and "
         "compares every delivery (order, data, synchrony, chaining) with the recorded history; "
         "distinct = canonical case; non-trivial = at least one output event was delivered")
@@ -35,7 +35,7 @@ NAN = float('nan')
 NOINIT = object()
 VALUES = [0, 1, True, False, 1.0, None, '', (1,), (1.0,), [1], 'a', NAN, 2, -1]
 NUMERIC = [0, 1, True, False, 1.0, 2, -1, 3, 2.0]
-FKINDS = ['pass', 'reject_odd', 'edit_new', 'edit_inplace', 'pass']
+FKINDS = ['pass', 'reject_odd', 'edit_new', 'edit_inplace', 'pass', 'edit_empty', 'edit_clear', 'edit_strip']
 FORMS = ['list', 'tuple', 'single', 'list']
 
 
@@ -67,6 +67,13 @@ def apply_filter(kind, n, data, counter):
     if kind == 'edit_inplace':
         data[f"g{n}"] = 'x'
         return data
+    if kind == 'edit_empty':
+        return {}           # an empty mapping is a mapping: the event is sent without data items
+    if kind == 'edit_clear':
+        data.clear()        # in-place, same (now empty) object returned
+        return data
+    if kind == 'edit_strip':
+        return {k: v for k, v in data.items() if k == 'value'}
     raise AssertionError(kind)
 
 
